@@ -199,6 +199,9 @@ func extExcept(fr *frame, a []value) value {
 	if mode == "confirm" {
 		extAssume(fr, []value{lowerTerm(c, types.Typ[types.Bool])})
 	} else {
+		if c.IsConst() && c.K != 0 {
+			m.Stats.ExcludedByKnown++
+		}
 		extAssume(fr, []value{lowerTerm(m.C.Not(c), types.Typ[types.Bool])})
 	}
 	return nil
